@@ -464,15 +464,36 @@ def cache_experiment(part):
                 s = re.sub(r"_lr_signature = (b?)'", lambda m: "_lr_signature = %s'XX" % m.group(1), s, count=1)
                 open(p, 'w').write(s)
             elif cfg == 'stale-rules-same-signature-inputs':
-                # a table generated from a grammar with one production removed but the same signature line:
-                # a correct signature check must notice nothing here only if the signature really covers the rules
-                s = open(p).read()
-                open(p, 'w').write(s)       # identical content: control configuration (must equal 'warm')
+                pass                       # generated below from a mutated grammar
             elif cfg == 'truncated-file':
                 s = open(p).read()
                 open(p, 'w').write(s[:len(s) // 2])
             elif cfg == 'syntax-error-file':
                 open(p, 'w').write('this is not python (\n')
+        if cfg == 'stale-rules-same-signature-inputs':
+            # tables generated (by the real PLY) from a grammar revision with the same p_* function names, tokens and
+            # precedence but one production removed: a later process must notice that they are stale
+            for t in TABS:
+                try:
+                    os.unlink(os.path.join(d, t))
+                except OSError:
+                    pass
+            gen = (
+                "import sys, os, re, types\n"
+                "sys.path.insert(0, %r)\nsys.dont_write_bytecode = True\n"
+                "import miasmx.core\n"
+                "fn = %r + '/miasmx/core/parse_ad.py'\n"
+                "src = open(fn).read()\n"
+                "new = re.sub(r'\\n\\s*\\| expression TIMES expression', '', src, count=1)\n"
+                "assert new != src\n"
+                "mod = types.ModuleType('miasmx.core.parse_ad'); mod.__file__ = fn\n"
+                "sys.modules['miasmx.core.parse_ad'] = mod\n"
+                "exec(compile(new, fn, 'exec'), mod.__dict__)\n") % (core.REPO, core.REPO)
+            g = subprocess.run([sys.executable, '-c', gen], env=dict(os.environ, TMPDIR=d, PYTHONHASHSEED='0'), stdout=subprocess.PIPE, stderr=subprocess.PIPE, cwd='/')
+            if g.returncode != 0 or not os.path.exists(os.path.join(d, TABS[0])):
+                part.skip('could not generate a stale table (grammar text changed)')
+                part.counters['stale_table_generation_failed'] += 1
+                continue
         if cfg == 'read-only-directory':
             os.chmod(d, 0o555)
         if cfg == 'foreign-module-on-syspath':
